@@ -138,7 +138,7 @@ pub fn main(args: &[String]) -> i32 {
             if fault_mode == 3 {
                 // determinate outage: every record write of a batch fails, clean-up, journal, marker and
                 // metadata writes succeed
-                return if idx as i64 >= fault_at && _kind == "write" && _sector >= 16 && obs::IN_BATCH.load(std::sync::atomic::Ordering::SeqCst)
+                return if idx as i64 >= fault_at && _kind == "write" && _sector >= 16 && obs::in_batch()
                     && !HEALED.load(std::sync::atomic::Ordering::SeqCst) { 1 } else { 0 };
             }
             if hit && !HEALED.load(std::sync::atomic::Ordering::SeqCst) { fault_mode } else { 0 }
@@ -263,7 +263,7 @@ pub fn main(args: &[String]) -> i32 {
         if r < 45 {
             // put (plain, TTL, explicit lower/higher timestamp, ghost-embedding value)
             // on a v1 device (no expiry field) every TTL write must be refused: tried now and then
-            let use_ttl = ttl && rng.random_range(0..(if fmt >= 2 { 4 } else { 10 })) == 0;
+            let use_ttl = ttl && rng.random_range(0..4) == 0;
             let mut val: Vec<u8> = {
                 let mut n = sizes[rng.random_range(0..sizes.len())];
                 if edge_pct > 0 && rng.random_range(0..100) < edge_pct && key.len() < 1000 {
@@ -299,7 +299,8 @@ pub fn main(args: &[String]) -> i32 {
                 }
             }
             obs::api("api_call", &key, call_idx, 0, 0);
-            let as_bytes = rng.random_bool(0.4);
+            let as_bytes = rng.random_bool(if fmt == 1 && use_ttl { 0.5 } else { 0.4 });
+            if fmt == 1 && use_ttl && rng.random_bool(0.5) { ts_choice = None; }
             let short = ts_choice.is_none() && rng.random_bool(0.5);
             let res = match (use_ttl, as_bytes) {
                 (true, false) if short => store.insert_with_ttl(&key, &val, rng.random_range(1..3)),
